@@ -241,7 +241,8 @@ pub fn scenarios(tier: Tier) -> Vec<C09Scn> {
 				early_op: Some(1),
 				disconnect: Some(1),
 				async_persist: None,
-				complete_reorder: Some(1),
+				// (default order: reconnect and deliver before completing, so the reestablish meets the in-flight write)
+				complete_reorder: if th { Some(1) } else { None },
 				..Deviations::default()
 			},
 			k: if th { 3 } else { 2 },
